@@ -267,15 +267,18 @@ def threshold_sensitive(t1, t2, thr, keepkey):
     return False
 
 
-def set_member_hit(t1, t2, opt):
+def set_member_hit(t1, t2, opt, spec=None):
     """a pattern / path / include set that DeepHash applies to the pseudo-path
-    <set path>[iteration index] of a member of two compared sets"""
+    <set path>[iteration index] of a member of two compared sets (at a level the
+    filter keeps, so that the sets are really compared)"""
     exs = set(s for a in opt.get("ex", ()) for s in rooted(a))
     incs = [s for a in opt.get("inc", ()) for s in rooted(a)]
     rxs = [re.compile(r) for r in opt.get("rx", ())]
+    if spec is None:
+        spec = Spec(all_positions(t1, t2), opt.get("ex", ()), opt.get("rx", ()), opt.get("inc", ()))
 
     def walk(a, b, path):
-        if type(a) is not type(b):
+        if type(a) is not type(b) or not spec.keep(list(path)):
             return False
         if isinstance(a, (set, frozenset)):
             base = render(list(path))
@@ -345,18 +348,20 @@ def shortcut_profile(t1, t2, thr, spec):
     return out
 
 
+def related_to(p, Q):
+    return any(is_prefix(q, p) or is_prefix(p, q) for q in Q)
+
+
 def m_include_key_format(case):
-    """K10: an include path (or a dict key on the way to / below it) that
-    "{}['{}']".format does not spell like the path printer: non-str key, or a
-    str key containing a single quote"""
+    """K10: an include path that "{}['{}']".format does not spell like the path
+    printer (a non-str dict key, or a str key containing a single quote) and the
+    failure consists of MISSING entries at / below / above such a path"""
     t1, t2, opt, P, spec = analyse(case)
-    if not opt.get("inc"):
+    if not opt.get("inc") or case.get("view") == "text":
         return False
-    incs = set(s for a in opt["inc"] for s in rooted(a))
-    for p in P:
-        if render(p) in incs and not all(simple_str_key(e) for e in p):
-            return True
-    return False
+    ns = [q for q in spec.inc_paths if not all(simple_str_key(e) for e in q)]
+    missing = [m[1] for m in case.get("missing", [])]
+    return bool(ns) and bool(missing) and all(related_to(m, ns) for m in missing)
 
 
 def m_set_member(case):
@@ -366,21 +371,39 @@ def m_set_member(case):
 
 
 def m_include_substring(case):
-    """K13b: a position that is unrelated (as a key sequence) to every include
-    path, but whose rendered path contains an include string or is contained in one"""
+    """K13b: an unexpected entry at or below a level that is unrelated (as a key
+    sequence) to every include path but whose rendered path contains an include
+    string or is contained in one"""
     t1, t2, opt, P, spec = analyse(case)
-    if not opt.get("inc"):
+    if not opt.get("inc") or case.get("view") == "text":
         return False
     incs = set(s for a in opt["inc"] for s in rooted(a))
-    for p in P:
-        if p and not spec.included(p):
-            s = render(p)
-            if any(s in q or q in s for q in incs):
-                return True
-    return False
+    extra = [m[1] for m in case.get("extra", [])]
+
+    def explained(p):
+        for n in range(1, len(p) + 1):
+            if not spec.included(p[:n]):
+                s = render(p[:n])
+                return any(s in q or q in s for q in incs)
+        return False
+    return bool(extra) and all(explained(p) for p in extra)
+
+
+def m_exclude_under_include(case):
+    """K13d: exclude_paths and include_paths together: the unexpected entries lie at
+    or below an excluded path that is not itself an include string but contains
+    one / is contained in one"""
+    t1, t2, opt, P, spec = analyse(case)
+    if not (opt.get("ex") and opt.get("inc")) or case.get("view") == "text":
+        return False
+    incs = set(s for a in opt["inc"] for s in rooted(a))
+    bad = [q for q in spec.ex_paths if render(q) not in incs and any(i in render(q) or render(q) in i for i in incs)]
+    extra = [m[1] for m in case.get("extra", [])]
+    return bool(extra) and all(any(is_prefix(q, p) for q in bad) for p in extra)
 
 
 MATCHERS = {"K13a-threshold-shortcut": m_threshold,
+            "K13d-exclude-under-include": m_exclude_under_include,
             "K13b-include-substring": m_include_substring,
             "K10-include-key-format": m_include_key_format,
             "K13c-set-member-index": m_set_member}
@@ -437,7 +460,7 @@ def gen_options(rng, t1, t2, P, n, hot=()):
     out = []
     for _ in range(n):
         kind = rng.choice(["lit1", "lit1", "lit1", "lit3", "lit3", "rx_prefix", "rx_exact", "rx_class",
-                           "inc1", "inc1", "inc2", "inc_any", "unrooted", "lit_rx"])
+                           "inc1", "inc1", "inc2", "inc_any", "unrooted", "lit_rx", "ex_inc"])
         zip_ = rng.random() < 0.6
         pool = nonroot if zip_ or rng.random() < 0.25 else keypaths
         if hot and rng.random() < 0.65:
@@ -468,6 +491,9 @@ def gen_options(rng, t1, t2, P, n, hot=()):
         elif kind == "lit_rx":
             opt["ex"] = [render(rng.choice(pool))]
             opt["rx"] = ["^" + rx_escape(render(rng.choice(pool))) + "$"]
+        elif kind == "ex_inc":
+            opt["inc"] = [render(rng.choice(strpaths))]
+            opt["ex"] = [render(rng.choice(pool))]
         elif kind == "inc1":
             opt["inc"] = [render(rng.choice(strpaths))]
         elif kind == "inc2":
@@ -573,12 +599,14 @@ def oracle_one(t1, t2, opt, base_tree, base_text, rng, do_text=True, do_indep=Tr
         return fails, False, got, flags
     want = [e for e in base_tree if spec.keep(e[1])]
     nontrivial = 0 < len(want) < len(base_tree)
+    tree_ok = True
     if inq and got != want:
-        extra = [e[:2] for e in got if e not in want][:3]
-        missing = [e[:2] for e in want if e not in got][:3]
+        tree_ok = False
+        extra = [e[:2] for e in got if e not in want]
+        missing = [e[:2] for e in want if e not in got]
         fails.append((case_dict(t1, t2, opt, extra=extra, missing=missing),
-                      "filtered result is not the unrestricted result restricted to the kept paths: unexpected %r, missing %r" % (extra, missing)))
-    if inq and do_text and not isinstance(base_text, tuple):
+                      "filtered result is not the unrestricted result restricted to the kept paths: unexpected %r, missing %r" % (extra[:3], missing[:3])))
+    if inq and tree_ok and do_text and not isinstance(base_text, tuple):
         gt = run_text(t1, t2, opt)
         if isinstance(gt, tuple):
             fails.append((case_dict(t1, t2, opt, error=gt[1]), "text view of the filtered run raises " + gt[1]))
@@ -587,7 +615,7 @@ def oracle_one(t1, t2, opt, base_tree, base_text, rng, do_text=True, do_indep=Tr
             if gt != wt:
                 fails.append((case_dict(t1, t2, opt, view="text", extra=[x[:2] for x in gt if x not in wt][:3], missing=[x[:2] for x in wt if x not in gt][:3]),
                               "text view: filtered result is not the unrestricted text result restricted to the kept path strings"))
-    if inq and do_indep and spec.ex_paths and not opt.get("inc"):
+    if inq and tree_ok and do_indep and spec.ex_paths and not opt.get("inc"):
         q = rng.choice(spec.ex_paths)
         if q:
             t1b, t2b = perturb(rng, t1, t2, q)
@@ -656,10 +684,10 @@ def _work(args):
             if isinstance(got, tuple):
                 cnt("raised")
                 continue
-            if set_member_hit(t1, t2, opt):
+            spec = Spec(P, opt.get("ex", ()), opt.get("rx", ()), opt.get("inc", ()))
+            if set_member_hit(t1, t2, opt, spec):
                 cnt("set_member_hit(no correspondence)")
                 continue
-            spec = Spec(P, opt.get("ex", ()), opt.get("rx", ()), opt.get("inc", ()))
             cases.append((model_expr(t1, t2, opt, spec), got, case_dict(t1, t2, opt)))
             if len(samples) < 2 and nontriv:
                 samples.append(case_dict(t1, t2, opt, filtered_entries=len(got), unrestricted_entries=len(bt)))
@@ -701,7 +729,7 @@ def witnesses(ctx):
 
 # --------------------------------------------------------------------------
 def run(ctx):
-    npairs = 1500 if ctx.thorough else 260
+    npairs = 6000 if ctx.thorough else 900
     nopts = 10 if ctx.thorough else 8
     nw = core.NCPU
     per = (npairs + nw - 1) // nw
